@@ -6,7 +6,7 @@ from props import solver_common as sc
 
 ID = 'C17'
 PROPS_FILE = 'Props/C17.v'
-MODEL_FILES = ['Solver/Solver.v', 'Solver/SolverF.v', 'Tracer/Tracer.v', 'Tracer/TracerF.v']
+MODEL_FILES = ['Solver/Solver.v', 'Solver/SolverF.v', 'Solver/SolveAll.v', 'Tracer/Tracer.v', 'Tracer/TracerSolve.v', 'Tracer/TracerF.v']
 K_NAME = ('K_tracer (Tracer.traced_solve_t / traced_solve_period / traced_solve and their untraced twins instantiated with PrimFloat '
           'vs TracerMixin over scripted models: state, Trace objects and result after every call of a call sequence)')
 RULE = ('scripted models (1-4 variables, 1-5 periods) run as a sequence of 1-4 calls on ONE traced instance and on an untraced twin: '
@@ -232,7 +232,7 @@ def _full(case, obs):
 # --------------------------------------------------------------------------- Coq encoding
 PREAMBLE = '''From Coq Require Import PrimFloat ZArith List Bool.
 Import ListNotations.
-Require Import Fsic.Base.PyBase Fsic.Solver.Solver Fsic.Solver.SolverF Fsic.Tracer.Tracer Fsic.Tracer.TracerF.
+Require Import Fsic.Base.PyBase Fsic.Solver.Solver Fsic.Solver.SolverF Fsic.Solver.SolveAll Fsic.Tracer.Tracer Fsic.Tracer.TracerSolve Fsic.Tracer.TracerF.
 Open Scope float_scope. Open Scope Z_scope.
 '''
 
@@ -244,6 +244,10 @@ def positions_of_solve(case, call):
     return list(range(a, b + 1))
 
 
+def c_optZ(x):
+    return 'None' if x is None else '(Some %s)' % lib.cZ(x)
+
+
 def c_call(case, call):
     e = call['entry']
     if e == 'solve_t':
@@ -251,7 +255,8 @@ def c_call(case, call):
     elif e == 'solve_period':
         ent = '(ESolvePeriod %s)' % lib.cZ(call['label'])
     else:
-        ent = '(ESolve %s)' % lib.clist(lib.cnat(p) for p in positions_of_solve(case, call))
+        # the labels as passed; which positions they mean (defaults from lags / leads, list.index, range) is the MODEL's business
+        ent = '(ESolve %s %s)' % (c_optZ(call.get('start')), c_optZ(call.get('end')))
     return '(mkCall %s %s %s %s)' % (ent, sc.c_opts(call['opts']), c_targ(call.get('trace', ['omit'])), lib.cbool(bool(call.get('reset'))))
 
 
@@ -274,8 +279,10 @@ def c_res(call, out):
     import scripted
     if call['entry'] == 'solve':
         if out[0] == 'ret':
-            return '(RList (Ret %s))' % lib.clist(lib.cbool(b) for b in out[1])
-        return '(RList %s)' % sc.c_outcome(out, scripted.CAUSE_TAG)
+            solved, indexes, labels = out[1], out[2], out[3]
+            vis = lib.clist('(%s, %s, %s)' % (lib.cZ(l), lib.cZ(t), lib.cbool(b)) for l, t, b in zip(labels, indexes, solved))
+            return '(RSolve (Ret (mkRes %s %s)))' % (lib.cnat(len(solved)), vis)
+        return '(RSolve %s)' % sc.c_outcome(out, scripted.CAUSE_TAG)
     return '(RBool %s)' % sc.c_outcome(out, scripted.CAUSE_TAG)
 
 
